@@ -19,7 +19,7 @@ META = {
                         "~2600 strings) against the documented parse; getters over 14 values x {present, missing}; precedence: every flag / choice / "
                         "scalar option of the live OPTIONS table individually with symbolic presence in the ini (and pyproject.toml) file and on "
                         "the command line (negated twin symbolic), 6 seeded triples of options jointly, append options order, paths/outfiles in a "
-                        "config file in another directory, -D over file userdata",
+                        "config file in another directory, -D over file userdata; config files in $HOME and the working directory at once (every option, presence in each file symbolic)",
                "thorough": "20 seeded triples, toml for all options"},
     "outside": ["the inside of argparse/configparser/tomllib (stdlib, run concretely)", "options with derived side effects are asserted only through "
                 "their documented couplings (wip, steps_catalog, quiet, junit->capture)"],
